@@ -68,7 +68,7 @@ func runC17(c *Ctx) {
 	// ---- (1) key of the forced-hosts lookup
 	nLk := 0
 	var forcedLookup *ssa.Lookup
-	eachInstr(nx, func(in ssa.Instruction) {
+	eachInstrDeep(nx, 2, func(in ssa.Instruction) {
 		lk, ok := in.(*ssa.Lookup)
 		if !ok || !strings.HasSuffix(PathOf(lk.X), ".ForcedHosts") {
 			return
@@ -198,7 +198,7 @@ func runC17(c *Ctx) {
 		return false
 	}
 	nTry, nForced := 0, 0
-	eachInstr(nx, func(in ssa.Instruction) {
+	eachInstrDeep(nx, 2, func(in ssa.Instruction) {
 		st, ok := in.(*ssa.Store)
 		if !ok {
 			return
@@ -298,7 +298,7 @@ func runC17(c *Ctx) {
 			}
 			return false
 		})
-		c.Check("skip", name+"@nextServerToTry", cand, g && ns >= 2, why)
+		c.Check("skip", name+"@nextServerToTry", cand, g && ns >= 1, why)
 	}
 	excl("current-server", func(v ssa.Value) bool { return strings.HasSuffix(PathOf(v), ".connectedServer_") },
 		"a list entry naming the player's current server can be chosen")
@@ -312,8 +312,15 @@ func runC17(c *Ctx) {
 	if h2 != nil {
 		c.Analysed(h2)
 		var call *ssa.Call
-		for _, ci := range callsIn(h2, func(nm string, cc *ssa.CallCommon) bool { return strings.HasSuffix(nm, "connectedPlayer).nextServerToTry") }) {
-			call, _ = ci.(*ssa.Call)
+		// the selection may live in a helper of handleConnectionErr2: analyse the function that calls nextServerToTry
+		for _, f := range deepFuncs(h2, 2) {
+			for _, ci := range callsIn(f, func(nm string, cc *ssa.CallCommon) bool { return strings.HasSuffix(nm, "connectedPlayer).nextServerToTry") }) {
+				if cl, ok := ci.(*ssa.Call); ok {
+					call = cl
+					h2 = f
+					c.Analysed(f)
+				}
+			}
 		}
 		if call == nil {
 			c.Undecided("kick-result", "handleConnectionErr2", "nextServerToTry is not called")
